@@ -238,6 +238,13 @@ func (s *synth) value(t reflect.Type, name string, depth int) (reflect.Value, bo
 			} else {
 				v.SetUint(uint64(r.Intn(129)))
 			}
+		case strings.HasPrefix(ln, "plmndigit") && r.Chance(85):
+			// TS 24.008 PLMN octets: two BCD digits; the high nibble of octet 2 may be the filler 0xF
+			hi := uint64(r.Intn(10))
+			if ln == "plmndigit2" && r.Chance(50) {
+				hi = 0xf
+			}
+			v.SetUint(hi<<4 | uint64(r.Intn(10)))
 		case ln == "bearer" && r.Chance(85):
 			v.SetUint(uint64(r.Intn(32)))
 		case ln == "direction" && r.Chance(85):
